@@ -15,13 +15,13 @@ PROPS = {
              eps=('claim', 'claimPayment', 'confirm', 'blacklist', 'refund', 'confirmNft', 'setPrice'), cats=('bal', 'status'),
              coq=('Proofs/Ledger.v',)),
     'C02': P('launchpad-token ledger: deposit acceptance iff tpt x (W+R), cover, surplus',
-             eps=('deposit', 'claim', 'claimPayment', 'setTpt'), cats=('bal', 'status', 'locks'), views=('deposited', 'tpt'),
+             eps=('deposit', 'claim', 'claimPayment', 'setTpt'), cats=('bal', 'status', 'locks'), views=('deposited', 'tpt', 'nrWinning'),
              coq=('Proofs/Ledger.v', 'Proofs/Reserve.v')),
     'C03': P('number and identity of winners after base selection and after the additional step',
              eps=('select', 'extra'), cats=('ret', 'status'), views=('nrWinning', 'winIds', 'totalTickets'),
              coq=('Proofs/Shuffle.v',)),
     'C04': P('run_while split law lifted to every resumable endpoint; seeds consumed only by the first call',
-             eps=SEL, cats=('ret', 'status'), rng=True, views=('flags',), coq=('Proofs/Loop.v', 'Proofs/Resume.v', 'Proofs/Resume2.v', 'Proofs/Resume3.v')),
+             eps=SEL, cats=('ret', 'status'), rng=True, views=('flags',), coq=('Proofs/Loop.v', 'Proofs/Resume.v', 'Proofs/Resume2.v', 'Proofs/Resume3.v', 'Proofs/Resume4.v')),
     'C05': P('sparse Fisher-Yates refines the textbook algorithm; bijection; word stream of the rng',
              eps=('select',), cats=('ret',), rng=True, views=('winIds',), coq=('Proofs/Shuffle.v', 'Proofs/Rng.v'),
              gentable=('const_usize_bytes', 'const_hash_len', 'const_first_ticket_id')),
@@ -37,8 +37,8 @@ PROPS = {
     'C10': P('blacklist refunds in full and excludes; un-blacklist restores and frames',
              eps=('blacklist', 'refund', 'unblacklist', 'confirm'), cats=('status', 'bal'),
              views=('blacklisted', 'confirmed', 'utStatus'), coq=('Proofs/Blacklist.v',)),
-    'C11': P('guarantees honoured with own tickets only', eps=('extra',), cats=('status', 'ret'),
-             views=('winIds', 'utStatus', 'nrWinning'), coq=('Proofs/Guaranteed.v',)),
+    'C11': P('guarantees honoured with own tickets only', eps=('extra',), cats=('status', 'ret'), rng='eps',
+             views=('winIds', 'utStatus', 'nrWinning'), coq=('Proofs/Guaranteed.v', 'Proofs/GuaranteedLoop.v', 'Proofs/Resume2.v', 'Proofs/Resume4.v')),
     'C12': P('W + R = K through allocation / blacklist / un-blacklist; no wrap; leftovers',
              eps=('addTickets', 'blacklist', 'refund', 'unblacklist', 'deposit', 'extra'), cats=('status', 'panic', 'wrap'),
              rng=True, views=('nrWinning',), coq=('Proofs/Reserve.v',),
@@ -90,7 +90,7 @@ def relevant(d):
         elif cat == 'events':
             hit = s['events'] or ('events' in s['cats'] and (s['eps'] is None or ep in s['eps']))
         elif cat == 'rng':
-            hit = s['rng']
+            hit = s['rng'] is True or (s['rng'] == 'eps' and ep in (s['eps'] or ()))
         elif cat == 'locks':
             hit = s['locks'] or 'locks' in s['cats']
         elif cat == 'shape':
